@@ -129,14 +129,14 @@ def scenario(c, inst):
             # explicit_fault: the first trial of the second call is rejected, the retry is interrupted by a fault, the call is repeated
             integ.update_timestep = ctrl_stub(c, integ, log, max_redo=(1 if mode == "explicit_fault" else 0))
 
-        def formula_checks(tag, tt, yy, hh, dT, dY):
+        def formula_checks(tag, tt, yy, hh, dT, dY, consts={}):
             K = [integ.stage_values[..., i] for i in range(s)]
             for i in range(s):
                 want_y = yy
                 for j in range(s):
                     if A[i, 1 + j] != 0.0:
                         want_y = want_y + hh * float(A[i, 1 + j]) * K[j]
-                c.check("c02.stage_slope_is_f_at_stage_point", _eqv(c, K[i], probe(tt + float(A[i, 0]) * hh, want_y), scale), info=dict(stage=i, call=tag))
+                c.check("c02.stage_slope_is_f_at_stage_point", _eqv(c, K[i], probe(tt + float(A[i, 0]) * hh, want_y, **consts), scale), info=dict(stage=i, call=tag))
             want_dY = 0 * yy
             for i in range(s):
                 if B[0, 1 + i] != 0.0:
@@ -194,12 +194,14 @@ def scenario(c, inst):
                 formula_checks("second(no fault reached)", tt, yy, dT, dT, dY)
                 tt, yy = tt + dT, yy + dY
         n_log = len(log)
-        st, r = run(integ, rhs, tt, yy, {}, h)
+        # the equation changes between the calls (a parameter in `constants`): the step is the RK update of the NEW equation
+        consts = {"s": c.real("s_after")} if mode == "explicit" else {}
+        st, r = run(integ, rhs, tt, yy, consts, h)
         if st != "ok":
             c.check("c02.call_after.no_exception", False, info=repr(r))
             return
         new_h, (dT, dY) = r
-        formula_checks("after", tt, yy, dT, dT, dY)
+        formula_checks("after", tt, yy, dT, dT, dY, consts)
         c.check("c02.dTime_is_attempted_step", c.eq(dT, h) if len(log) == n_log else c.eq(dT, log[-1]["dT"]))
         return
     if mode in ("splitting", "splitting_nonfinite"):
